@@ -324,6 +324,13 @@ def array_descriptors(tier):
             for order in orders:
                 for item in ("static", "dynamic"):
                     yield nd, mask, order, item, None
+    # items SMALLER than a slot (4 bytes): array items are packed, only the parts of a struct are slot-aligned -- a site
+    # that rounds the item size up to a slot (seeded C06-f: the strides recomputed by _from_buffer) agrees with the
+    # others for every item size that is a multiple of 8
+    for nd in (1, 2, 3) if tier == "thorough" else (1, 2):
+        for mask in itertools.product([False, True], repeat=nd):
+            for order in (itertools.permutations(range(nd)) if nd < 3 else [(0, 1, 2), (1, 2, 0)]):
+                yield nd, mask, tuple(order), "small", None
     # class statements spell the order "C" / "F" or leave it out (PF54: kept as a string for dynamic shapes)
     for nd in (2, 3) if tier == "thorough" else (2,):
         for mask in itertools.product([False, True], repeat=nd):
@@ -345,7 +352,7 @@ def l1(cx):
     nd_count = 0
     for nd, mask, order, itemkind, spell in array_descriptors(cx.tier):
         nd_count += 1
-        isz = 24 if itemkind == "static" else None
+        isz = {"static": 24, "small": 4}.get(itemkind)
         cshape = [None if mask[k] else STATIC_DIMS[k] for k in range(nd)]
         dims = [DIMS[k] if mask[k] else STATIC_DIMS[k] for k in range(nd)]
         label = f"nd={nd} shape={cshape} order={list(order) if spell is None else repr(spell) if spell else 'not given'} item={itemkind}"
@@ -520,7 +527,7 @@ def ps(cx):
     I, W = lab.I, lab.W
     n = 0
     # ---- arrays
-    for nd, mask, order, itemkind in [d[:4] for d in array_descriptors(cx.tier) if d[4] is None]:
+    for nd, mask, order, itemkind in [d[:4] for d in array_descriptors(cx.tier) if d[4] is None and d[3] != "small"]:
         if cx.tier != "thorough" and itemkind == "static" and nd == 3 and order not in ((0, 1, 2), (1, 2, 0)):
             continue
         n += 1
@@ -1673,7 +1680,7 @@ def t1(cx):
     I, W = lab.I, lab.W
     n = 0
     # ---- arrays nested in a struct (parent offset != 0), every descriptor
-    for nd, mask, order, itemkind in [d[:4] for d in array_descriptors(cx.tier) if d[4] is None]:
+    for nd, mask, order, itemkind in [d[:4] for d in array_descriptors(cx.tier) if d[4] is None and d[3] != "small"]:
         isz = 24 if itemkind == "static" else None
         cshape = [None if mask[k] else STATIC_DIMS[k] for k in range(nd)]
         dims = [DIMS[k] if mask[k] else STATIC_DIMS[k] for k in range(nd)]
